@@ -83,6 +83,9 @@ func (t *ReuseConnTransport) ExchangeContext(ctx context.Context, m []byte) (*dn
 	retry := 0
 	for {
 		var isNewConn bool
+		if verifhook.On {
+			verifhook.Gate("rt.get", t, ctx)
+		}
 		c, err := t.getIdleConn()
 		if err != nil {
 			errs = append(errs, err)
@@ -120,13 +123,22 @@ func (t *ReuseConnTransport) exchangeConnCtx(ctx context.Context, payload []byte
 
 	go func() {
 		resp, err := t.exchangeConn(payload, c)
+		if verifhook.On {
+			verifhook.Gate("rt.send", t, c)
+		}
 		resChan <- res{m: resp, err: err}
 		t.releaseConn(c, err)
 	}()
 	select {
 	case r := <-resChan:
+		if verifhook.On {
+			verifhook.Gate("rt.taken", t, ctx, true)
+		}
 		return r.m, r.err
 	case <-ctx.Done():
+		if verifhook.On {
+			verifhook.Gate("rt.taken", t, ctx, false)
+		}
 		return nil, context.Cause(ctx)
 	}
 }
@@ -152,6 +164,9 @@ func (t *ReuseConnTransport) exchangeConn(payload []byte, c *reusableConn) (*dns
 }
 
 func (t *ReuseConnTransport) releaseConn(rc *reusableConn, err error) {
+	if verifhook.On {
+		verifhook.Gate("rt.rel1", t, rc)
+	}
 	if err != nil {
 		debugLogTransportConnClosed(rc.c, t.logger, err)
 		rc.close()
@@ -159,6 +174,9 @@ func (t *ReuseConnTransport) releaseConn(rc *reusableConn, err error) {
 		rc.enterIdle()
 	}
 
+	if verifhook.On {
+		verifhook.Gate("rt.rel2", t, rc)
+	}
 	t.m.Lock()
 	if t.closed {
 		t.m.Unlock()
@@ -203,6 +221,9 @@ func (t *ReuseConnTransport) asyncDial(ctx context.Context) (*reusableConn, erro
 		if c != nil {
 			rc = newReusableConn(c, t.opts.IdleTimeout)
 			rc.exitIdle()
+			if verifhook.On {
+				verifhook.Gate("rt.register", t, ctx, rc)
+			}
 			t.m.Lock()
 			if t.closed {
 				t.m.Unlock()
@@ -219,6 +240,9 @@ func (t *ReuseConnTransport) asyncDial(ctx context.Context) (*reusableConn, erro
 			}
 		}
 
+		if verifhook.On {
+			verifhook.Gate("rt.deliver", t, ctx)
+		}
 		select {
 		case dialChan <- dialRes{c: rc, err: err}:
 		case <-callCtx.Done(): // caller canceled getNewConn() call
@@ -230,8 +254,14 @@ func (t *ReuseConnTransport) asyncDial(ctx context.Context) (*reusableConn, erro
 
 	select {
 	case <-callCtx.Done():
+		if verifhook.On {
+			verifhook.Gate("rt.dialed", t, ctx, false)
+		}
 		return nil, context.Cause(ctx)
 	case res := <-dialChan:
+		if verifhook.On {
+			verifhook.Gate("rt.dialed", t, ctx, true)
+		}
 		return res.c, res.err
 	}
 }
